@@ -884,6 +884,12 @@ func valueText(v ssa.Value) string {
 		return fmt.Sprintf("&%s.#%d", valueText(x.X), x.Field)
 	case *ssa.Field:
 		return fmt.Sprintf("%s.#%d", valueText(x.X), x.Field)
+	case *ssa.BinOp:
+		return "(" + valueText(x.X) + " " + x.Op.String() + " " + valueText(x.Y) + ")"
+	case *ssa.Const:
+		if x.Value != nil {
+			return x.Value.ExactString()
+		}
 	}
 	return v.Name()
 }
